@@ -84,7 +84,7 @@ def _bundle_dense(rng, shape):
     return {"shape": list(shape), "data": data, "kw": [v for _, v in nz], "kf": kf, "tcs": list(shape), "tcore": data, "tf": eye}
 
 
-SHAPES_Q = [(3, 2), (4, 3, 2), (2, 5, 2)]
+SHAPES_Q = [(3, 2), (4, 3, 2), (2, 5, 2), (1, 3, 2)]
 SHAPES_T = SHAPES_Q + [(5,), (2, 3), (4, 4), (3, 4, 2), (1, 4, 3), (3, 1, 2), (2, 2, 3, 2), (5, 2, 2), (3, 3, 3)]
 REPRS = ("dense", "sparse", "ktensor", "ttensor")
 
@@ -245,6 +245,8 @@ def _e_eig(a, o, rp):
 def _e_post(a, o):
     if "w" not in o:
         return "false"
+    if len({abs(x) for x in o["w"]}) < len(o["w"]):
+        return "true"      # exactly equal |w|: numpy's default argsort is not stable, the order among ties is unspecified
     cols = "[" + "; ".join(gqlist(cl) for cl in o["cols"]) + "]"
     got = "[" + "; ".join(gqlist(cl) for cl in o["Vx"]) + "]" if o["Vx"] else "(@nil (list Qc))"
     return f"qcols_eqb (qpost {gqlist(o['w'])} {cols} {a['r']} {gbool(a['flip'])}) {got}"
@@ -346,7 +348,11 @@ def _is_sparse_case(c):
     return c.op in ("sp_real", "sp_eig", "sp_post", "sp_agree")
 
 
-TRIGGERS = {"sparse_nvecs": _is_sparse_case}
+def _is_sparse_singleton(c):
+    return c.op.startswith("sp_") and c.args["shape"][c.args["n"]] == 1
+
+
+TRIGGERS = {"sparse_nvecs": _is_sparse_case, "sparse_singleton_mode": _is_sparse_singleton}
 
 
 def _wit_a38():
@@ -367,4 +373,15 @@ def _wit_a38():
     return "; ".join(msgs) or None
 
 
-WITNESSES = {"A-38": _wit_a38}
+def _wit_singleton():
+    import numpy as np
+    import pyttb as ttb
+    S = ttb.sptensor(np.array([[0, 1, 2], [0, 3, 0]]), np.array([[2.0], [1.0]]), (1, 4, 3))
+    try:
+        v = np.asarray(S.nvecs(0, 1))
+    except Exception as ex:
+        return f"sptensor.nvecs(0,1) on a 1x4x3 tensor raises {type(ex).__name__}: {ex}"
+    return None if v.shape == (1, 1) and abs(abs(v[0, 0]) - 1) < 1e-12 else f"sptensor.nvecs(0,1) on a 1x4x3 tensor returns {v.tolist()}"
+
+
+WITNESSES = {"A-38": _wit_a38, "C14-F2": _wit_singleton}
